@@ -39,8 +39,15 @@ pub fn note_alloc_violation(code: u32, a: usize, b: usize) {
     }
 }
 
+pub fn note_hang() {
+    if let Some(f) = BB.get() {
+        let _ = f.write_at(&1u32.to_le_bytes(), 24);
+    }
+}
+
 #[derive(Debug, Clone, Copy, Default)]
 pub struct Record {
+    pub hang: u32,
     pub seed: u64,
     pub index: u64,
     pub phase: u32,
@@ -57,5 +64,5 @@ pub fn read(path: &str) -> Option<Record> {
     }
     let u64at = |o: usize| u64::from_le_bytes(d[o..o + 8].try_into().unwrap());
     let u32at = |o: usize| u32::from_le_bytes(d[o..o + 4].try_into().unwrap());
-    Some(Record { seed: u64at(0), index: u64at(8), phase: u32at(16), sub: u32at(20), alloc_code: u32at(32), a: u64at(40), b: u64at(48) })
+    Some(Record { hang: u32at(24), seed: u64at(0), index: u64at(8), phase: u32at(16), sub: u32at(20), alloc_code: u32at(32), a: u64at(40), b: u64at(48) })
 }
